@@ -483,6 +483,35 @@ type Mutation {
 }
 """, "", config={"enable_custom_operations": True, "scalars": {"DateTime": {"type": "datetime.datetime"}}})
 
+W9k = copy.deepcopy(W9)
+W9k["id"] = "W9k-custom-operations-keyword-names"
+for _d in W9k["defs"]:
+    if _d["name"] == "User" and _d["kind"] == "type":
+        _d["sdl"] = _d["sdl"].replace("  createdAt: DateTime\n", "  createdAt: DateTime\n  from: User\n  global(in: Int, is: [String!]): String\n  class: Int\n")
+W15 = _world("W15-custom-ops-fragments-only", "\n\n".join(d["sdl"] for d in W9["defs"]), """
+fragment UserBits on User {
+  id
+  firstName
+  bestFriend {
+    id
+    lastName
+  }
+}
+
+fragment AdminBits on Admin {
+  id
+  permissionLevels
+}
+
+fragment UserMore on User {
+  ...UserBits
+  avatarUrl(size: 64)
+  friends(ids: ["1"], first: 3) {
+    id
+  }
+}
+""", config={"enable_custom_operations": True, "scalars": {"DateTime": {"type": "datetime.datetime"}}})
+
 W10 = []
 for _i, _plugs in enumerate([[PLUGINS[0]], [PLUGINS[1]], [PLUGINS[2]], [PLUGINS[0], PLUGINS[1]], [PLUGINS[1], PLUGINS[0]],
                             [PLUGINS[2], PLUGINS[0], PLUGINS[1]], [PLUGINS[0], PLUGINS[3]]]):
@@ -759,7 +788,7 @@ query getthem {
 
 
 def all_worlds() -> List[dict]:
-    return [W1, W2, W2b, W3, W4, W5, W7, W8, W9] + W10 + W11 + W12 + W13 + W14
+    return [W1, W2, W2b, W3, W4, W5, W7, W8, W9, W9k, W15] + W10 + W11 + W12 + W13 + W14
 
 
 def by_id(wid: str) -> dict:
